@@ -37,6 +37,42 @@ def body_of(c, suffix_type, method):
     return c.bf(l[0])
 
 
+def _constant_time_eq(c, bv):
+    """the other accepted comparison: fold(zip(mic bytes, computed bytes), 0, |acc, (r, e)| acc | (r ^ e)) == 0 - equal iff no byte
+    differs. (An accumulator that can cancel differences, e.g. XOR, is not an equality test.)"""
+    rets = [s_ for b in bv.body.blocks if not b.cleanup and b.idx in bv.cfg.reach for s_ in b.stmts if s_.k == 'assign' and s_.lhs.is_local() and s_.lhs.local == 0]
+    if len(rets) != 1 or rets[0].rv.k != 'bin' or rets[0].rv.d.get('op') != 'Eq':
+        return False
+    a, b = [peel(term_of_operand(bv, o)) for o in rets[0].rv.ops]
+    if a == ('const', 0):
+        a, b = b, a
+    if b != ('const', 0) or not is_call(a, 'Iterator::fold'):
+        return False
+    it, init, clo = a[2]
+    if peel(init) != ('const', 0) or not is_call(it, 'Iterator::zip'):
+        return False
+    zs = [peel(x) for x in peel(it)[2]]
+    if not (any(has_call(z, '::mic') for z in zs) and any(has_call(z, 'calculate_data_mic') for z in zs) and all(is_call(z, '::iter') for z in zs)):
+        return False
+    cp = [x for x in (clo if isinstance(clo, tuple) else ()) if isinstance(x, str) and '{closure' in x]
+    if not cp:
+        return False
+    from ..flow import strip_generics
+    name = strip_generics(cp[0])
+    bl = c.prog.by_short.get(name) or []
+    if len(bl) != 1:
+        return False
+    cb = c.bf(name)
+    cr = [s_ for b_ in cb.body.blocks if not b_.cleanup for s_ in b_.stmts if s_.k == 'assign' and s_.lhs.is_local() and s_.lhs.local == 0]
+    if len(cr) != 1 or cr[0].rv.k != 'bin' or cr[0].rv.d.get('op') != 'BitOr':
+        return False
+    x, y = [peel(term_of_operand(cb, o)) for o in cr[0].rv.ops]
+    if x != ('param', 2):
+        x, y = y, x
+    pair = {('field', ('param', 3), '0'), ('field', ('param', 3), '1')}
+    return x == ('param', 2) and (is_call(y, 'BitXor::bitxor') or y[0] == 'BitXor') and {peel(z) for z in (y[2] if y[0] == 'call' else y[1:3])} == pair
+
+
 def run(tier):
     res = Result(PID)
     c = ctx('ws')
@@ -170,7 +206,8 @@ def run(tier):
         ic = index_call(a[0])
         okv = ic is not None and ic[1][2] == 'to' and off(ic[1][1]) == (-4, (('len(&**arg1.bytes)', 1),)) and a[1] == ('param', 2) and a[2] == ('param', 3)
         eq = [(bb_, t) for bb_, t in bv.calls() if callee_name(t).endswith('PartialEq>::eq')]
-        okv = okv and len(eq) == 1 and any(has_call(term_of_operand(bv, x), '::mic') for x in eq[0][1].args) and any(has_call(term_of_operand(bv, x), 'calculate_data_mic') for x in eq[0][1].args)
+        cmp_eq = len(eq) == 1 and any(has_call(term_of_operand(bv, x), '::mic') for x in eq[0][1].args) and any(has_call(term_of_operand(bv, x), 'calculate_data_mic') for x in eq[0][1].args)
+        okv = okv and (cmp_eq or _constant_time_eq(c, bv))
     res.require(okv, 'C02:validate_mic', 'validate_mic is not `mic() == calculate_data_mic(bytes[..len-4], crypto, fcnt)`', bv.body.path, 'PROVENANCE(MIC check)',
                 instance='validate_mic: last 4 bytes == calculate_data_mic(bytes[..len-4], given key, given 32-bit counter)')
     users = sorted({bfx.body.path.split('::')[-2] + '::' + bfx.body.path.split('::')[-1] for bfx, bb_, t in c.pf.callers_of('securityhelpers::calculate_data_mic', crates={'lorawan'})})
